@@ -147,7 +147,11 @@ class Fn:
         self.pidx = {}
         self.alias_locals = set()
         self.aliases = {}        # struct-pointer locals: name -> (struct parameter, member path); set by their (single) assignment `q = &(p->a.b)`
-        self.rowsets = []        # members that are arrays of rows (List (List Int)), read-only
+        self.pre_lines = []      # lines to emit before the statement being translated (calls of translated functions)
+        self.ncalls = 0
+        self.uses_join = False
+        self.rowsets = []        # members that are arrays of rows (List (List Int))
+        self.rows_written = set()
         self.loop_assigned = set()
         self.setters = []
         self.owner = None        # struct parameter whose member is being registered (entry parameters are grouped per C parameter)
@@ -516,6 +520,8 @@ class Fn:
                     fail("%s: side effect in strlen argument" % self.name)
                 rest = "(%s.drop (Int.toNat (%s)))" % (self.rt(r), i)
                 return "(Int.ofNat (%s.takeWhile (· ≠ 0)).length)" % rest, c + ["0 ≤ %s ∧ (0 : Int) ∈ %s" % (i, rest)], []
+            if nm in self.opts.get("_fns", {}):
+                return self.call_translated(n, nm)
             if nm in self.opts.get("assume_calls", {}):
                 # a call whose effect is outside the modelled state and which is ASSUMED to return this value (trusted base)
                 note = "call of `%s` is assumed to return %s" % (nm, self.opts["assume_calls"][nm])
@@ -529,6 +535,28 @@ class Fn:
                 v = "(if s.io_pos < s.io_in.length then (s.io_in.getD (Int.toNat s.io_pos) 0) else -1)"
                 eff = Eff(("scalar", "io_pos"), "(if s.io_pos < s.io_in.length then s.io_pos + 1 else s.io_pos)", "io_pos")
                 return v, [], [eff]
+            if io == "bitwrite":
+                # Hbitwrite(bitid, count, data): appends the pair (count, data) to the output stream (two cells), returns count
+                self.use_io("out")
+                ct, cc, ce = self.rvalue(n["inner"][2])
+                dt, dc, de = self.rvalue(n["inner"][3])
+                if ce or de:
+                    fail("%s: side effect in %s arguments" % (self.name, nm))
+                return ct, cc + dc, [Eff(("whole", "io_out"), "(s.io_out ++ [%s, %s])" % (ct, dt), "io_out")]
+            if io == "bitread":
+                # Hbitread(bitid, count, &var): the next `count` cells of the input stream are bits (0/1), most significant first;
+                # returns count, or FAIL (-1, nothing changes) when fewer are left
+                self.use_io("in")
+                ct, cc, ce = self.rvalue(n["inner"][2])
+                tgt = self.skip(n["inner"][3])
+                if ce or tgt.get("kind") != "UnaryOperator" or tgt.get("opcode") != "&":
+                    fail("%s: %s target must be &variable" % (self.name, nm))
+                lv = self.lvalue(tgt["inner"][0])
+                if lv[0] != "scalar":
+                    fail("%s: %s target must be a scalar variable" % (self.name, nm))
+                ok = "(s.io_pos + %s ≤ s.io_in.length)" % ct
+                val = "(((s.io_in.drop (Int.toNat s.io_pos)).take (Int.toNat (%s))).foldl (fun acc b => acc * 2 + b) 0)" % ct
+                return "(if %s then %s else -1)" % (ok, ct), cc + ["(0 : Int) ≤ %s" % ct], [Eff(lv, "(if %s then %s else s.%s)" % (ok, val, lv[1]), lv[1]), Eff(("scalar", "io_pos"), "(if %s then s.io_pos + %s else s.io_pos)" % (ok, ct), "io_pos")]
             if io == "putc":
                 # appends one byte to the output stream and returns it (the output never fails: assumption, C16 owns I/O failures)
                 self.use_io("out")
@@ -626,13 +654,19 @@ class Fn:
                 return "(%s %s %s)" % (ta, lop, tb), ca + cb, ea + eb
             if op == "&&":
                 ta, ca, ea = self.cond(a)
+                npre = len(self.pre_lines)
                 tb, cb, eb = self.cond(b)
+                if len(self.pre_lines) != npre:
+                    fail("%s: call of a translated function on the right of &&" % self.name)
                 if eb:
                     fail("%s: side effect on the right of &&" % self.name)
                 return "(%s ∧ %s)" % (ta, tb), ca + ["¬%s ∨ (%s)" % (ta, x) for x in cb], ea
             if op == "||":
                 ta, ca, ea = self.cond(a)
+                npre = len(self.pre_lines)
                 tb, cb, eb = self.cond(b)
+                if len(self.pre_lines) != npre:
+                    fail("%s: call of a translated function on the right of ||" % self.name)
                 if eb:
                     fail("%s: side effect on the right of ||" % self.name)
                 return "(%s ∨ %s)" % (ta, tb), ca + ["%s ∨ (%s)" % (ta, x) for x in cb], ea
@@ -690,8 +724,13 @@ class Fn:
             return [self.upd(lv[1], term, ind)]
         if lv[0] == "whole":
             return [self.upd(lv[1], term, ind)]
-        if lv[1].startswith("#") or lv[1].startswith("@"):
-            fail("%s: store into a row of an array of rows / a global" % self.name)
+        if lv[1].startswith("@"):
+            fail("%s: store into a global" % self.name)
+        if lv[1].startswith("#"):
+            _, f, ix = lv[1].split("#", 2)
+            self.rows_written.add(f)
+            return ["%slet rw : Int := %s" % (ind, ix),
+                    self.upd(f, "s.%s.set (Int.toNat rw) ((s.%s.getD (Int.toNat rw) []).set (Int.toNat (%s)) (%s))" % (f, f, lv[2], term), ind)]
         return [self.upd(lv[1], "s.%s.set (Int.toNat (%s)) (%s)" % (lv[1], lv[2], term), ind)]
 
     def effects(self, effs, ind, also=()):
@@ -739,6 +778,19 @@ class Fn:
         return out
 
     def stmt(self, n, ind):
+        """one statement; calls of translated functions inside its expressions are bound (and their effects applied) BEFORE it"""
+        k = n.get("kind")
+        if k in ("CompoundStmt", "ForStmt", "WhileStmt", "DoStmt", "SwitchStmt"):
+            return self.stmt0(n, ind)
+        saved, self.pre_lines = self.pre_lines, []
+        try:
+            body = self.stmt0(n, ind)
+            pre = [ind + l for l in self.pre_lines]
+        finally:
+            self.pre_lines = saved
+        return pre + body
+
+    def stmt0(self, n, ind):
         k = n.get("kind")
         if k is None or k == "NullStmt":
             return []
@@ -1005,7 +1057,7 @@ class Fn:
         nm = callee.get("referencedDecl", {}).get("name")
         if nm in self.ignore:
             return []
-        if nm in self.opts.get("io", {}) or nm in self.opts.get("assume_calls", {}):
+        if nm in self.opts.get("io", {}) or nm in self.opts.get("assume_calls", {}) or nm in self.opts.get("_fns", {}):
             t_, c_, e_ = self.rvalue(n)
             return self.with_effects(c_, [], e_, ind)
         if nm in ("memset", "__builtin_memset", "HDmemset"):
@@ -1052,6 +1104,113 @@ class Fn:
             return out
         fail("%s: call of %s" % (self.name, nm))
 
+    def call_translated(self, n, nm):
+        """call of a function translated earlier in this unit: run it (with the same fuel) on the caller's state, copy back what it may modify.
+        Arguments: integers; region bases (index 0) for its array parameters; for a struct parameter the caller's struct parameter / alias
+        (or `&(p->a.b)`): the callee's fields `<cp>_<m>` are the caller's `<p>_<path>_<m>`.  A callee region that is ONE ROW of an array of
+        rows of the caller is named in opts['row_args'][callee][callee region] = callee entry field holding the row index at entry."""
+        callee = self.opts["_fns"][nm]
+        args = n["inner"][1:]
+        if len(args) != len(callee.plist):
+            fail("%s: call of %s with %d arguments" % (self.name, nm, len(args)))
+        amap, checks = {}, []      # callee entry field -> Lean term
+        back = []                  # (callee field, how to store it back)
+        rows = self.opts.get("row_args", {}).get(nm, {})
+        for cp, a in zip(callee.plist, args):
+            fields = [(f, ty) for f, ty, o in callee.entry if o == cp]
+            if cp in callee.structs:
+                r = self.skip(a)
+                if r.get("kind") == "UnaryOperator" and r.get("opcode") == "&":
+                    r = self.skip(r["inner"][0])
+                if r.get("kind") == "MemberExpr":
+                    p0, path0 = self.member_chain(r)
+                elif r.get("kind") == "DeclRefExpr" and r["referencedDecl"]["name"] in self.structs:
+                    p0, path0 = r["referencedDecl"]["name"], []
+                elif r.get("kind") == "DeclRefExpr" and r["referencedDecl"]["name"] in self.aliases:
+                    p0, path0 = self.aliases[r["referencedDecl"]["name"]]
+                else:
+                    p0 = None
+                if p0 is None:
+                    fail("%s: argument of %s for struct parameter %s is not a struct parameter of the caller" % (self.name, nm, cp))
+                pre = "_".join([p0] + path0)
+                for f, ty in fields:
+                    mine = lname(pre + f[len(lname(cp)):]) if f.startswith(lname(cp) + "_") else None
+                    if mine is None:
+                        fail("%s: field %s of %s cannot be mapped" % (self.name, f, nm))
+                    if ty == "Int":
+                        self.owned(p0, self.scalar, mine, entry=True)
+                        amap[f] = "s.%s" % mine
+                        back.append((f, ("scalar", mine)))
+                    elif ty == "Bool":
+                        self.owned(p0, self.boolf, mine)
+                        amap[f] = "s.%s" % mine
+                    elif ty == "List Int" and f in rows:
+                        # one row of the caller's array of rows
+                        rowidx_callee = rows[f]
+                        mine_idx = lname(pre + rowidx_callee[len(lname(cp)):])
+                        if mine not in self.rowsets:
+                            if mine in self.regions:
+                                fail("%s: %s is used both as one row and as an array of rows" % (self.name, mine))
+                            self.rowsets.append(mine)
+                            self.owned(p0, self.add_entry, mine, "List (List Int)")
+                        self.owned(p0, self.scalar, mine_idx, entry=True)
+                        amap[f] = "(s.%s.getD (Int.toNat s.%s) [])" % (mine, mine_idx)
+                        checks.append("0 ≤ s.%s ∧ s.%s < s.%s.length" % (mine_idx, mine_idx, mine))
+                        back.append((f, ("row", mine, mine_idx)))
+                        self.rows_written.add(mine)
+                    elif ty == "List Int":
+                        self.owned(p0, self.region, mine)
+                        amap[f] = "s.%s" % mine
+                        back.append((f, ("whole", mine)))
+                    else:
+                        self.rowsets.append(mine) if mine not in self.rowsets else None
+                        amap[f] = "s.%s" % mine
+                        back.append((f, ("whole", mine)))
+            elif fields and fields[0][1] == "Int" and len(fields) == 1:
+                tv, cv, ev = self.rvalue(a)
+                if ev:
+                    fail("%s: side effect in an argument of %s" % (self.name, nm))
+                amap[fields[0][0]] = tv
+                checks += cv
+            elif fields:
+                rr, ri, rc, re_ = self.pexpr(a)
+                if re_ or ri != "0" or rr.startswith("#") or rr.startswith("@"):
+                    fail("%s: array argument of %s must be a whole region" % (self.name, nm))
+                amap[fields[0][0]] = "s.%s" % rr
+                checks += rc
+                back.append((fields[0][0], ("whole", rr)))
+        rest = [(f, ty) for f, ty, o in callee.entry if o not in callee.plist]
+        for f, ty in rest:
+            # stream regions etc. shared by name
+            if f in ("io_in", "io_out"):
+                self.use_io("in" if f == "io_in" else "out")
+                amap[f] = "s.%s" % f
+                back.append((f, ("whole", f)))
+            elif f == "io_pos":
+                self.use_io("in")
+                amap[f] = "s.io_pos"
+                back.append((f, ("scalar", "io_pos")))
+            else:
+                fail("%s: entry field %s of %s has no counterpart in the caller" % (self.name, f, nm))
+        order = [f for f, _ in callee.ordered]
+        k = self.ncalls
+        self.ncalls += 1
+        self.uses_join = True
+        for c in checks:
+            self.pre_lines.append("have s : %s.St := %s.chk s (%s)" % (self.name, self.name, c))
+        self.pre_lines.append("let r%d : %s.St := %s fuel %s" % (k, nm, nm, " ".join("(%s)" % amap[f] for f in order)))
+        for f, how in back:
+            if f not in callee.setters and not (f in ("io_in", "io_out", "io_pos")):
+                continue      # the callee never stores into it
+            if how[0] == "scalar":
+                self.pre_lines.append(self.upd(how[1], "r%d.%s" % (k, f), ""))
+            elif how[0] == "whole":
+                self.pre_lines.append(self.upd(how[1], "r%d.%s" % (k, f), ""))
+            else:
+                self.pre_lines.append(self.upd(how[1], "s.%s.set (Int.toNat s.%s) r%d.%s" % (how[1], how[2], k, f), ""))
+        self.pre_lines.append("have s : %s.St := %s.St.join s r%d.ub r%d.oof" % (self.name, self.name, k, k))
+        return "r%d.ret" % k, [], []
+
     def can_exit(self, n):
         if n.get("kind") in ("ReturnStmt", "BreakStmt", "ContinueStmt"):
             return True
@@ -1092,10 +1251,14 @@ class Fn:
         idx = self.nloops
         self.nloops += 1
         ln = "%s.loop%d" % (self.name, idx)
+        saved_pre, self.pre_lines = self.pre_lines, []
         if cond is not None and cond.get("kind"):
             c, cc, ce = self.cond(cond)
         else:
             c, cc, ce = "True", [], []
+        cond_pre, self.pre_lines = self.pre_lines, saved_pre
+        if cond_pre and k == "DoStmt":
+            fail("%s: call of a translated function in a do-while condition" % self.name)
         bl = self.stmt(body, "        ")
         il = self.stmt(inc, "        ") if inc is not None and inc.get("kind") else []
         if il and self.exits_loop(body):
@@ -1108,7 +1271,7 @@ class Fn:
         if self.has_ret or self.has_brk:
             stop = " ∧ ¬(" + " ∨ ".join((["s.done"] if self.has_ret else []) + (["s.brk"] if self.has_brk else [])) + ")"
         reset = [self.upd("cnt", "false", "        ")] if self.has_brk else []
-        pre = self.checks(cc, "      ")
+        pre = ["      " + l for l in cond_pre] + self.checks(cc, "      ")
         if ce:
             pre.append("      let c : Bool := decide (%s%s)" % (c, stop))
             pre += self.with_effects([], [], ce, "      ")
@@ -1326,6 +1489,10 @@ class Fn:
                 l = self.skip(n["inner"][0])
                 if l.get("kind") == "DeclRefExpr":
                     self.loop_assigned.add(lname(l["referencedDecl"]["name"]))
+                elif l.get("kind") == "MemberExpr":
+                    p_, path_ = self.member_chain(l)
+                    if p_ is not None:
+                        self.loop_assigned.add(lname("%s_%s" % (p_, "_".join(path_))))
             for c in n.get("inner", []):
                 loops_(c, here)
         loops_(body, False)
@@ -1340,6 +1507,7 @@ class Fn:
         for pn in self.plist:
             ordered += [(n, t) for n, t, o in self.entry if o == pn]
         ordered += [(n, t) for n, t, o in self.entry if o not in self.plist]
+        self.ordered = ordered
         params = ["(fuel : Nat)"] + ["(%s : %s)" % (n, t) for n, t in ordered]
         given = set(n for n, _ in ordered)
         inits = ["%s := %s" % (n, n) for n, _ in ordered]
@@ -1372,9 +1540,15 @@ class Fn:
             ftype[f] = "Int"
         for f in self.regions + list(self.local_regions):
             ftype[f] = "List Int"
+        for f in self.rowsets:
+            ftype[f] = "List (List Int)"
         for f in ("retnull", "done", "brk", "cnt"):
             ftype[f] = "Bool"
         ftype["ret"] = "Int"
+        if self.uses_join:
+            st.append("/-- after a call of a translated function: its undefined-behaviour and out-of-fuel flags are the caller's too -/")
+            st.append("def %s.St.join (s : %s.St) (ub oof : Bool) : %s.St := { s with ub := s.ub || ub, oof := s.oof || oof }" % (self.name, self.name, self.name))
+            st.append("")
         for f in self.setters:
             st.append("@[reducible] def %s.St.set_%s (s : %s.St) (v : %s) : %s.St := { s with %s := v }" % (self.name, f, self.name, ftype[f], self.name, f))
         if self.setters:
@@ -1439,9 +1613,11 @@ def translate_unit(repo, bdir, unit, cfile, fns, opts=None):
                "   (see the header of gen/c2lean.py for the translation scheme and its assumptions). -/\n" % cfile)
     out.append("set_option linter.unusedVariables false\nnamespace H4.Gen.Fn.%s\n" % unit)
     sigs = {}
+    done_fns = {}
     for fn in fns:
         fo = dict(opts)
         fo.update(opts.get("per_fn", {}).get(fn, {}))
+        fo["_fns"] = dict(done_fns)
         ast = clang_ast(os.path.join(repo, cfile), fn, incs)
         f = Fn(ast, unit, fo)
         txt, params = f.translate()
@@ -1452,6 +1628,7 @@ def translate_unit(repo, bdir, unit, cfile, fns, opts=None):
             txt, params = f.translate()
             if fo.get("_missing_consts"):
                 fail("%s: constants %s could not be resolved" % (fn, sorted(fo["_missing_consts"])))
+        done_fns[fn] = f
         for long_, short_ in fo.get("abbrev", {}).items():
             txt = txt.replace(long_ + "_", short_ + "_")
             params = [q.replace(long_ + "_", short_ + "_") for q in params]
